@@ -101,26 +101,74 @@ def _placement(ts):
     return list(zip(ts.sites_position[ts.mutations_site].tolist(), ts.mutations_node.tolist()))
 
 
-def p_monomorphic(ts, rng):
+def insert_sites(ts, positions, rng):
+    """Copy of ts with mutation-free sites at the given (unused) positions. The site table is rebuilt in
+    position order and the mutations' site ids renumbered by hand — no sort(), so the mutation rows keep their
+    order (this is exactly `Pipeline.insertSite`, repeated)."""
     t = ts.dump_tables()
-    used = set(t.sites.position.tolist())
+    old = t.sites.copy()
+    new_pos = sorted(float(p) for p in positions)
+    t.sites.clear()
+    remap = np.zeros(old.num_rows, dtype=np.int32)
+    j = 0
+    for i in range(old.num_rows):
+        while j < len(new_pos) and new_pos[j] < old.position[i]:
+            t.sites.add_row(position=new_pos[j], ancestral_state=str(rng.choice(["A", "G", ""])))
+            j += 1
+        remap[i] = t.sites.append(old[i])
+    while j < len(new_pos):
+        t.sites.add_row(position=new_pos[j], ancestral_state=str(rng.choice(["A", "G", ""])))
+        j += 1
+    t.mutations.site = remap[t.mutations.site]
+    return t.tree_sequence()
+
+
+def free_positions(ts, rng, k):
+    """k unused integer positions: some between existing sites, some on the flanks, the rest anywhere."""
     L = int(ts.sequence_length)
-    added = 0
-    for _ in range(int(rng.integers(1, 6))):
-        pos = float(rng.integers(0, L))
-        if pos in used:
-            continue
-        used.add(pos)
-        t.sites.add_row(position=pos, ancestral_state=str(rng.choice(["A", "G", ""])))
-        added += 1
-    if not added:
+    used = set(int(x) for x in ts.sites_position)
+    free = np.array([x for x in range(L) if x not in used])
+    if free.size < k or k <= 0:
+        return None
+    picked = set()
+    if ts.num_sites:
+        lo, hi = float(np.min(ts.sites_position)), float(np.max(ts.sites_position))
+        inner = free[(free > lo) & (free < hi)]
+        flank = free[(free < lo) | (free > hi)]
+        if inner.size and k >= 1:
+            picked.add(int(rng.choice(inner)))
+        if flank.size and k >= 2:
+            picked.add(int(rng.choice(flank)))
+    rest = np.array([x for x in free if x not in picked])
+    need = k - len(picked)
+    if need > 0:
+        picked |= set(int(x) for x in rng.choice(rest, size=need, replace=False))
+    return sorted(picked)
+
+
+def monomorphic_counts(ts, rng):
+    """How many mutation-free sites to add: a random number, and the boundary counts at which the perturbed
+    input has exactly as many sites as mutations although sites and mutations are not one-to-one."""
+    counts = [("random", int(rng.integers(1, 6)))]
+    surplus = ts.num_mutations - ts.num_sites        # > 0 iff some site carries several mutations
+    if surplus > 0:
+        counts.append(("surplus", surplus))
+        counts.append(("surplus+1", surplus + 1))
+        if surplus > 1:
+            counts.append(("surplus-1", surplus - 1))
+    return counts
+
+
+def p_monomorphic(ts, rng, k=None, tag="random"):
+    if k is None:
+        k = int(rng.integers(1, 6))
+    pos = free_positions(ts, rng, k)
+    if pos is None:
         return None, "monomorphic"
-    t.sort()
-    t.build_index()
-    ts2 = t.tree_sequence()
-    if _placement(ts2) != _placement(ts):      # sort() re-ordered the mutations of a site: not a pure site insertion
+    ts2 = insert_sites(ts, pos, rng)
+    if _placement(ts2) != _placement(ts):
         return None, "monomorphic"
-    return ts2, f"monomorphic(+{added})"
+    return ts2, f"monomorphic({tag}:+{k})"
 
 
 def p_mutation_times(ts, rng):
@@ -250,7 +298,12 @@ def one_input(rng, res, stats, blocks, expect):
     method = str(rng.choice(METHODS, p=[0.45, 0.3, 0.25]))
     unphased = method == "variational_gamma" and rng.random() < 0.3
     discrete = method != "variational_gamma"
-    ts, info = pc.rich_ts(rng, discrete_ok=discrete or rng.random() < 0.5, unphased=unphased)
+    extra = {}
+    if rng.random() < 0.5:      # finite-sites regime: short genome, many mutations per site, several trees
+        extra = dict(L=float(rng.choice([200, 500, 1000])), trees=int(rng.choice([5, 10, 20])),
+                     muts_per_edge=float(rng.choice([3, 8])))
+    ts, info = pc.rich_ts(rng, discrete_ok=discrete or rng.random() < 0.5, unphased=unphased, **extra)
+    stats["multi_mutation_site_inputs"] += int(ts.num_mutations > ts.num_sites)
     if ts.num_mutations == 0:
         return
     kw = dating.method_options(rng, method, info)
@@ -270,7 +323,9 @@ def one_input(rng, res, stats, blocks, expect):
         stats["raised"][key] = stats["raised"].get(key, 0) + 1
         return
     obs0 = observe(base["out"][0], base["out"][1], method)
-    perts = [p_metadata, p_states, p_populations, p_provenance, p_monomorphic, p_mutation_times]
+    perts = [p_metadata, p_states, p_populations, p_provenance, p_mutation_times]
+    for tag, k in monomorphic_counts(ts, rng):
+        perts.append(lambda t, r, k=k, tag=tag: p_monomorphic(t, r, k, tag))
     if not unphased:
         perts.append(p_individuals)
     if not discrete:
@@ -337,7 +392,8 @@ def check_projections(res, stats, blocks, expect):
 
 def new_stats():
     return dict(methods={}, raised={}, perturbations={}, control_runs=0, control_changed_output=0,
-                control_projection_differs=0, hyp_projection_equal=0, hyp_projection_total=0)
+                control_projection_differs=0, hyp_projection_equal=0, hyp_projection_total=0,
+                multi_mutation_site_inputs=0)
 
 
 def run(ctx):
@@ -346,12 +402,13 @@ def run(ctx):
     stats = new_stats()
     rng = ctx.rng(1)
     blocks, expect = [], {}
-    for _ in range(ctx.n(14, 250)):
+    for _ in range(ctx.n(12, 220)):
         one_input(rng, res, stats, blocks, expect)
     check_projections(res, stats, blocks, expect)
     res.rule = ("generated inputs x 3 methods x (un)phased; each dated, then re-dated after each perturbation (node/mutation/"
                 "site/individual/top-level metadata and schemas; ancestral and derived states; populations; provenance, time "
-                "units, reference sequence; added monomorphic sites; existing mutation times; individuals when phased; "
+                "units, reference sequence; mutation-free sites added between existing sites and on the flanks, a random number "
+                "and the boundary numbers (#mutations - #sites, +-1) on finite-sites inputs; existing mutation times; individuals when phased; "
                 "migrations for variational_gamma); outputs (node times, mutation times by (position,node), mn/vr, fit "
                 "posteriors) compared bit for bit; control = one mutation moved to another node. Non-trivial = a perturbed "
                 "run that was compared; distinct by hash of (input, perturbation, method).")
